@@ -1,7 +1,8 @@
 from obl.vset_common import get_obls
+from obl.c01_memtable import memtable_obls
 
 # b: ldb_version_get over a symbolic multi-level version satisfying the C14 layout invariant
-OBLIGATIONS = (get_obls("b", 0, ((2, 0, 0, 1, 2, 1), (1, 1, 0, 1, 2, 1), (0, 2, 0, 1, 2, 1), (0, 1, 1, 1, 2, 2), (1, 1, 1, 1, 3, 1))) +
+OBLIGATIONS = memtable_obls("a") + (get_obls("b", 0, ((2, 0, 0, 1, 2, 1), (1, 1, 0, 1, 2, 1), (0, 2, 0, 1, 2, 1), (0, 1, 1, 1, 2, 2), (1, 1, 1, 1, 3, 1))) +
                get_obls("b", 0, ((2, 1, 1, 1, 2, 1), (1, 2, 1, 2, 6, 2), (3, 0, 0, 1, 2, 1), (2, 1, 0, 1, 2, 2)), tier="thorough"))
 
 META = {
